@@ -2836,3 +2836,119 @@ func noUserinfoOnRedirect(c *Ctx, rule string) {
 	}
 	c.Check(n > 0, rule, "url-userinfo-never-assigned", "-", "no function of package lfshttp assigns URL.User", "package lfshttp not found")
 }
+
+// noFetchIncludeIn (C12, C13, C05): lfs.fetchinclude narrows what fetch, pull, clone and the smudge filter
+// download. It must not narrow what migrate rewrites, what fsck examines or what prune retains: the functions
+// named (and what they reach statically) neither call Configuration.FetchIncludePaths nor build a path filter
+// with useFetchOptions other than the constant false.
+func noFetchIncludeIn(c *Ctx, rule, what string, roots ...string) {
+	p := c.P
+	var rfns []*ssa.Function
+	for _, r := range roots {
+		fn := p.Fn("commands", r)
+		if fn == nil {
+			c.Missing(rule, "commands."+r, "not found")
+			continue
+		}
+		rfns = append(rfns, fn)
+	}
+	n := 0
+	var fns []*ssa.Function
+	for fn := range staticReach(p, rfns...) {
+		fns = append(fns, fn)
+	}
+	sort.Slice(fns, func(i, j int) bool { return FnName(fns[i]) < FnName(fns[j]) })
+	for _, fn := range fns {
+		n++
+		if nameIn(FnName(fn), []string{"commands.determineIncludeExcludePaths", "commands.buildFilepathFilterWithPatternType", "commands.buildFilepathFilter"}) {
+			continue // the shared helpers: what matters is the flag their callers pass
+		}
+		if FnName(fn) == "lfs.Environ" {
+			continue // prints the setting (git lfs env, panic logs); decides nothing
+		}
+		for _, ci := range CallsIn(fn, "(*config.Configuration).FetchIncludePaths") {
+			c.Bad(rule, "fetchinclude-consulted:"+FnName(fn), p.InstrPos(ci), FnName(fn)+" reads lfs.fetchinclude, but "+what)
+		}
+		for _, ci := range CallsIn(fn, "commands.buildFilepathFilter", "commands.buildFilepathFilterWithPatternType", "commands.determineIncludeExcludePaths") {
+			a := CallArgs(ci.Common())
+			var flag ssa.Value
+			for _, v := range a {
+				if short(v.Type().String()) == "bool" {
+					flag = v
+				}
+			}
+			bv, isC := ConstBool(flag)
+			c.Check(flag != nil && isC && !bv, rule, "no-fetch-options:"+FnName(fn), p.InstrPos(ci), "the path filter is built from the command line only (useFetchOptions is false)",
+				FnName(fn)+" builds its path filter with the fetch configuration switched on, but "+what)
+		}
+	}
+	c.AtLeast(rule, "functions examined for use of lfs.fetchinclude", n, 1)
+}
+
+// fixupAttributesPerCommit (C12): with --fixup the paths to convert are those the commit's own .gitattributes
+// files (root and nested) mark as LFS; the attribute tree is rebuilt from every commit's root tree. In the
+// tree-pre callback of migrate import, a return without error for the root path of a fixup run comes only after
+// gitattr.New ran on the tree handed in — reusing an earlier commit's attributes converts the wrong paths.
+func fixupAttributesPerCommit(c *Ctx, rule string) {
+	p := c.P
+	root := p.Fn("commands", "migrateImportCommand")
+	if root == nil {
+		c.Missing(rule, "commands.migrateImportCommand", "not found")
+		return
+	}
+	n := 0
+	for _, fn := range WithAnon(root) {
+		calls := CallsIn(fn, "git/gitattr.New")
+		if len(calls) == 0 || fn == root {
+			continue
+		}
+		var tree *ssa.Parameter
+		for _, q := range fn.Params {
+			if short(q.Type().String()) == "*gitobj.Tree" || strings.HasSuffix(q.Type().String(), "gitobj/v2.Tree") {
+				tree = q
+			}
+		}
+		if tree == nil {
+			continue
+		}
+		n++
+		notRootOrNotFixup := PassEdges(fn, func(cond ssa.Value) (bool, bool) {
+			if u, ok := cond.(*ssa.UnOp); ok {
+				if g, ok := u.X.(*ssa.Global); ok && g.Name() == "migrateFixup" {
+					return false, true
+				}
+			}
+			if op, x, y, ok := BinCmp(cond); ok && (op == token.EQL || op == token.NEQ) {
+				if s, isC := ConstString(y); isC && s == "/" {
+					if _, isP := Unwrap(x).(*ssa.Parameter); isP {
+						return op == token.NEQ, true
+					}
+				}
+			}
+			return false, false
+		})
+		good, where := true, ""
+		for _, ex := range RunCount(CountQuery{Fn: fn, Cut: EdgeSet(notRootOrNotFixup), NoRet: noReturnCommands, Event: func(in ssa.Instruction) CSet {
+			if sc := AsCall(in); sc != nil && CalleeName(sc) == "git/gitattr.New" {
+				a := CallArgs(sc)
+				if len(a) > 1 && SameVar(a[1], tree) {
+					return C1
+				}
+			}
+			return 0
+		}}) {
+			if ex.Kind != "return" || ex.Set&C0 == 0 {
+				continue
+			}
+			r := ex.Instr.(*ssa.Return)
+			for _, v := range ReturnValues(r, -1) {
+				if IsNilConst(v) {
+					good, where = false, ex.Desc(p)
+				}
+			}
+		}
+		c.Check(good && nonVacuous(notRootOrNotFixup), rule, "fixup:attributes-rebuilt-for-every-commit", p.Pos(fn.Pos()), "for the root tree of every commit of a fixup run the attribute tree is rebuilt from that tree",
+			"the --fixup callback can finish for a commit's root tree without rebuilding the attribute tree from it ("+where+"): nested .gitattributes added or changed in that commit are ignored and paths other than the ones Git would filter are converted")
+	}
+	c.AtLeast(rule, "tree callbacks building the attribute tree", n, 1)
+}
